@@ -466,7 +466,9 @@ def run_check(prop, mod, tier, seed):
     }
     if states < 1 or transitions < 1:
         ev["coverage"]["states"] = max(states, 0)
-    with open(os.path.join(VERIF, "evidence", "%s.json" % prop), "w") as f:
+    # evidence describes /repo itself: a run pointed at another tree (VERIF_REPO, used for seeded changes) leaves the committed file alone
+    ev_dir = os.path.join(VERIF, "evidence") if os.path.realpath(REPO) == os.path.realpath("/repo") else os.environ.get("TMPDIR", "/tmp")
+    with open(os.path.join(ev_dir, "%s.json" % prop), "w") as f:
         json.dump(ev, f, indent=1, default=repr, sort_keys=True)
 
     # 6. verdict
